@@ -16,6 +16,7 @@ import (
 	"github.com/insomniacslk/dhcp/dhcpv4/ztpv4"
 	"github.com/insomniacslk/dhcp/dhcpv6"
 	"github.com/insomniacslk/dhcp/dhcpv6/ztpv6"
+	"github.com/insomniacslk/dhcp/iana"
 	"github.com/insomniacslk/dhcp/netboot"
 )
 
@@ -38,6 +39,8 @@ var (
 	tOptCode6 = reflect.TypeOf(dhcpv6.OptionCode(0))
 	tDecoder  = reflect.TypeOf((*dhcpv4.OptionDecoder)(nil)).Elem()
 	tHumanize = reflect.TypeOf(dhcpv4.OptionHumanizer{})
+	tDUID     = reflect.TypeOf((*dhcpv6.DUID)(nil)).Elem()
+	tArch     = reflect.TypeOf(iana.Arch(0))
 )
 
 // argSets returns the argument lists to try for a method type (nil: cannot be synthesised).
@@ -66,6 +69,12 @@ func argSets(mt reflect.Type) [][]reflect.Value {
 		return s
 	case in == tDecoder:
 		return [][]reflect.Value{{reflect.Zero(tDecoder)}}
+	case in == tDUID:
+		ll := dhcpv6.DUID(&dhcpv6.DUIDLL{HWType: 1, LinkLayerAddr: net.HardwareAddr{1, 2, 3, 4, 5, 6}})
+		op := dhcpv6.DUID(&dhcpv6.DUIDOpaque{Type: 9, Data: []byte{1}})
+		return [][]reflect.Value{{reflect.Zero(tDUID)}, {reflect.ValueOf(&ll).Elem()}, {reflect.ValueOf(&op).Elem()}}
+	case in == tArch:
+		return [][]reflect.Value{{reflect.ValueOf(iana.Arch(0))}, {reflect.ValueOf(iana.Arch(7))}}
 	case in.Kind() == reflect.Int:
 		return [][]reflect.Value{{reflect.ValueOf(2).Convert(in)}}
 	case in.Kind() == reflect.Uint32:
